@@ -1527,6 +1527,13 @@ def _encode_host(host: str, validate_host: bool) -> str:
             # These checks should not happen in the
             # LRU to keep the cache size small
             host = ip.compressed
+            if validate_host and (invalid := NOT_REG_NAME.search(zone.lower())):
+                # The zone id is kept verbatim, it must not be able to
+                # smuggle delimiters ("@", ":", "/", ...) into the authority
+                raise ValueError(
+                    f"Host zone id {zone!r} cannot contain {invalid.group()!r} "
+                    f"(at position {invalid.start()})"
+                )
             if ip.version == 6:
                 return f"[{host}%{zone}]" if sep else f"[{host}]"
             return f"{host}%{zone}" if sep else host
